@@ -507,6 +507,7 @@ def main():
                    'edge restraints for n2 > 1 (4-node circumferential rule)',
                    'bcn clpt/fsdt Donnell modules (not importable in this build) and the geier1997 / shadmehri2012 models']
     res = pmap(kprop.job, [(__name__, c) for c in cf])
+    res = kprop.explore_loci(__name__, res, run)      # second pass: the equality loci the executed code branched on
     kprop.handle(run, res, build, 'entries differ between the two descriptions', signature=signature)
     # compiled-kernel replay of cone(0) vs cylinder for every model (independent of the symbolic route, floats)
     run.extra['compiled_cone0_vs_cylinder'] = compiled_cone0()
